@@ -132,6 +132,7 @@ func Via(op world.Op, norm func(t structs.MessageType, req any, r Result) string
 			panic("no RPC endpoint mapping for " + op.Name)
 		}
 		w.LastRaw = r.Raw
+		w.LastApplies = srv.Applies
 		if op.Model != nil {
 			op.Model(w.Aux, idx)
 		}
